@@ -619,10 +619,132 @@ def check_mask_case(case, tol=1e-7):
     return fails
 
 
+# ---------------------------------------------------------------------------
+# matrix-valued Hamiltonians with several blocks (subspace_indices) and fully_diagonalize lists
+
+
+def gen_blocks_case(rng, sub=None):
+    """3 levels x one boson (or one fermion) mode with distinct rational level offsets; the levels are distributed over
+    blocks: [0,1,2] (three 1x1 blocks: all block pairs use the in-block entry [0,0]), [0,1,1], [0,0,1], or 2 levels [0,1];
+    optionally fully_diagonalize = [0] / [1] / [0,1]"""
+    sub = sub or rng.choice([[0, 1, 2], [0, 1, 2], [0, 1, 1], [0, 0, 1], [0, 1]])
+    L = len(sub)
+    offs = rng.sample([[0, 1], [3, 7], [9, 11], [16, 13], [5, 3]], L)   # differences are never integers
+    fermion = rng.random() < 0.25
+
+    def r():
+        return [rng.randint(-3, 3), rng.randint(1, 5)]
+    diag = [[r(), r()] for _ in range(L)]
+    off = {}
+    for i in range(L):
+        for j in range(i + 1, L):
+            x, y = r(), r()
+            if x[0] == 0 and y[0] == 0:
+                x[0] = 1
+            off["%d,%d" % (i, j)] = [x, y]
+    nb = max(sub) + 1
+    fd = None
+    if any(sub.count(b) > 1 for b in range(nb)) and rng.random() < 0.6:
+        fd = rng.choice([[b for b in range(nb) if sub.count(b) > 1], list(range(nb))])
+    return dict(kind="blocks", L=L, sub=sub, cs=offs, diag=diag, off=off, fd=fd, fermion=fermion, K=10, N=2)
+
+
+def check_blocks_case(case, tol=1e-7):
+    from pymablock import block_diagonalize
+    from pymablock.series import zero, one
+    from pymablock.number_ordered_form import NumberOperator
+    fermion = case.get("fermion", False)
+    sp = Space(0, 1, 2) if fermion else Space(1, 0, case["K"])
+    a = sp.fer[0] if fermion else sp.bos[0]
+    Nop = NumberOperator(a)
+    L, sub, N = case["L"], case["sub"], case["N"]
+    dim = sp.dim
+    H0 = sympy.zeros(L, L)
+    H1 = sympy.zeros(L, L)
+    for i in range(L):
+        H0[i, i] = Nop + R(*case["cs"][i])
+        al, be = case["diag"][i]
+        H1[i, i] = R(*al) * (a + Dagger(a)) + R(*be) * Nop
+    for key, (x, y) in case["off"].items():
+        i, j = (int(v) for v in key.split(","))
+        H1[i, j] = R(*x) * a + R(*y) * Dagger(a)
+        H1[j, i] = R(*x) * Dagger(a) + R(*y) * a
+    nb = max(sub) + 1
+    lv = [[l for l in range(L) if sub[l] == b] for b in range(nb)]
+    idx = [[l * dim + n for l in lv[b] for n in range(dim)] for b in range(nb)]
+    kw = {} if case["fd"] is None else dict(fully_diagonalize=list(case["fd"]))
+
+    def fock(M):
+        return np.block([[sp.tomat(M[i, j]) for j in range(M.shape[1])] for i in range(M.shape[0])])
+
+    def assemble_op(S, k):
+        full = np.zeros((L * dim, L * dim), dtype=complex)
+        for bi in range(nb):
+            for bj in range(nb):
+                v = S[bi, bj, k]
+                if v is zero:
+                    continue
+                blk = np.eye(len(idx[bi]), dtype=complex) if v is one else fock(v if isinstance(v, sympy.MatrixBase) else sympy.Matrix([[v]]))
+                full[np.ix_(idx[bi], idx[bj])] = blk
+        return full
+
+    def assemble_num(S, k):
+        full = np.zeros((L * dim, L * dim), dtype=complex)
+        for bi in range(nb):
+            for bj in range(nb):
+                v = S[bi, bj, k]
+                if v is zero:
+                    continue
+                blk = np.eye(len(idx[bi])) if v is one else np.asarray(v.toarray() if hasattr(v, "toarray") else v)
+                full[np.ix_(idx[bi], idx[bj])] = blk
+        return full
+    fails = []
+    with warnings.catch_warnings():
+        warnings.simplefilter("ignore")
+        try:
+            Ht, U, Ud = block_diagonalize([H0, H1], subspace_indices=list(sub), **kw)
+            ops = {(nm, k): assemble_op(S, k) for nm, S in (("H_tilde", Ht), ("U", U), ("U†", Ud)) for k in range(N + 1)}
+            h0 = fock(H0).real
+            h1 = fock(H1).real
+            Htm, Um, Udm = block_diagonalize([np.diag(np.diag(h0)), h1], subspace_indices=[sub[l] for l in range(L) for _ in range(dim)], **kw)
+            ref = {(nm, k): assemble_num(S, k) for nm, S in (("H_tilde", Htm), ("U", Um), ("U†", Udm)) for k in range(N + 1)}
+        except Exception as e:
+            return [dict(what="block_diagonalize (matrix-valued, blocks %s, fully_diagonalize=%s) raised %s: %s" % (sub, case["fd"], type(e).__name__, str(e)[:200]), input=case)]
+        for k in range(N + 1):
+            inner = sp.interior(k + 2)
+            keep = [l * dim + n for l in range(L) for n in inner]
+            sel = np.ix_(keep, keep)
+            for nm in ("H_tilde", "U", "U†"):
+                d = np.abs(ops[nm, k][sel] - ref[nm, k][sel]).max()
+                if not np.isfinite(d) or d > tol * max(1.0, np.abs(ref[nm, k]).max()):
+                    fails.append(dict(what="matrix-valued Hamiltonian, levels in blocks %s, fully_diagonalize=%s: %s at order %d differs from the truncated-matrix result on interior Fock states by %.3g"
+                                      % (sub, case["fd"], nm, k, d), input=case))
+        Hm = {0: fock(H0), 1: fock(H1)}
+        for n in range(N + 1):
+            inner = sp.interior(n + 2)
+            keep = [l * dim + m for l in range(L) for m in inner]
+            sel = np.ix_(keep, keep)
+            uu = sum(ops["U†", p] @ ops["U", n - p] for p in range(n + 1))
+            tgt = np.eye(L * dim) if n == 0 else np.zeros((L * dim, L * dim))
+            d = np.abs((uu - tgt)[sel]).max()
+            if d > tol:
+                fails.append(dict(what="matrix-valued Hamiltonian, blocks %s: U†U != 1 at order %d on interior Fock states (%.3g)" % (sub, n, d), input=case))
+            tot = sum(ops["U†", p] @ Hm[q] @ ops["U", n - p - q] for p in range(n + 1) for q in range(min(1, n - p) + 1))
+            d = np.abs((tot - ops["H_tilde", n])[sel]).max()
+            if d > tol * max(1.0, np.abs(tot).max()):
+                fails.append(dict(what="matrix-valued Hamiltonian, blocks %s: U†HU != H_tilde at order %d on interior Fock states (%.3g)" % (sub, n, d), input=case))
+    return fails
+
+
+def _dispatch(case):
+    k = case.get("kind")
+    return check_mask_case(case) if k == "mask" else check_blocks_case(case) if k == "blocks" else check_matrix_case(case) if k == "matrix" else check_case(case)
+
+
 def _worker(case):
     t = time.time()
     try:
-        f = check_mask_case(case) if case.get("kind") == "mask" else (check_matrix_case(case) if case.get("kind") == "matrix" else check_case(case))
+        f = _dispatch(case)
     except Exception as e:
         import traceback
         f = [dict(what="oracle crashed: " + traceback.format_exc()[-800:], input=case, crash=True)]
@@ -637,6 +759,9 @@ def oracle_fock(ctx, ncases=None, N=None):
         c = gen_matrix_case(ctx.rng) if i % 3 == 2 else (gen_spin_case(ctx.rng) if i % 3 == 0 else gen_case(ctx.rng))
         c["N"] = N or ctx.n(2, 3)
         cases.append(c)
+    cases.append(gen_blocks_case(random.Random(7), sub=[0, 1, 2]))  # corpus: three 1x1 blocks (all pairs use the in-block entry [0,0])
+    for i in range(ctx.n(3, 45)):  # matrix-valued Hamiltonians with several blocks / fully_diagonalize lists
+        cases.append(gen_blocks_case(ctx.rng))
     for i in range(ctx.n(4, 60)):  # operator-valued elimination masks (fully_diagonalize = sympy Matrix / dict / Expr)
         c = gen_mask_case(ctx.rng)
         c["N"] = N or 2
@@ -656,7 +781,7 @@ def oracle_fock(ctx, ncases=None, N=None):
 
 
 def replay(inp):
-    f = check_mask_case(inp) if inp.get("kind") == "mask" else (check_matrix_case(inp) if inp.get("kind") == "matrix" else check_case(inp))
+    f = _dispatch(inp)
     for x in f[:5]:
         print("still fails:", x["what"])
     return 1 if f else 0
